@@ -53,18 +53,23 @@ ARGSHAPES = ['none', 'p1', 'p2', 'n1', 'n2']
 class Rnd:
     env = None
     counter = 0
+    drawn = []          # every value the (environment-owned) random source has produced in the current execution
 
 
 def _randint(a, b):
     if Rnd.env is not None and b - a <= 3:
-        return a + Rnd.env.choose(('randint', a, b), b - a + 1)
+        v = a + Rnd.env.choose(('randint', a, b), b - a + 1)
+        Rnd.drawn.append(v)
+        return v
     Rnd.counter += 1
     return a + (Rnd.counter * 7919) % (b - a + 1)
 
 
 def _choice(seq):
     if Rnd.env is not None and len(seq) <= 3:
-        return seq[Rnd.env.choose(('choice', len(seq)), len(seq))]
+        v = seq[Rnd.env.choose(('choice', len(seq)), len(seq))]
+        Rnd.drawn.append(v)
+        return v
     Rnd.counter += 1
     return seq[(Rnd.counter * 31) % len(seq)]
 
@@ -126,20 +131,85 @@ class Served:
             log.append(('boom', a, b))
             raise ValueError(MARK)
 
-        self.funcs = dict(echo=echo, terr=terr, ferr=ferr, herr=herr, uerr=uerr, lerr=lerr, boom=boom, _echo=echo, __x=echo)
+        import functools
+
+        def audited(f):
+            # one ordinary decorator applied to several methods: all wrappers share one code object, each has its own signature
+            @functools.wraps(f)
+            def wrapper(*args, **kwargs):
+                return f(*args, **kwargs)
+            return wrapper
+
+        @audited
+        def deca(a='da', b='db'):
+            log.append(('deca', a, b))
+            return ['deca', a, {'b': b}]
+
+        @audited
+        def decb(b='db', a='da'):
+            log.append(('decb', a, b))
+            return ['decb', a, {'b': b}]
+
+        self.funcs = dict(echo=echo, terr=terr, ferr=ferr, herr=herr, uerr=uerr, lerr=lerr, boom=boom, _echo=echo, __x=echo,
+                          deca=deca, decb=decb)
 
     def register(self, disp, is_async):
+        import functools
         for name, f in self.funcs.items():
             if is_async:
-                def mk(f):
+                def mk(f, swapped=False):
                     async def co(a='da', b='db'):
-                        r = f(a, b)
+                        r = f(a=a, b=b)
                         await _pause()      # later started calls complete earlier (reverse completion order)
                         return r
-                    return co
-                disp.add(mk(f), name=name)
+
+                    async def co_swapped(b='db', a='da'):
+                        r = f(a=a, b=b)
+                        await _pause()
+                        return r
+                    return co_swapped if swapped else co
+                co = mk(f, swapped=(name == 'decb'))
+                if name in ('echo', 'uerr'):
+                    # a plain function that RETURNS a coroutine (an async method behind an ordinary decorator)
+                    def wrap(co):
+                        @functools.wraps(co)
+                        def plain(*a, **kw):
+                            return co(*a, **kw)
+                        return plain
+                    co = wrap(co)
+                elif name in ('ferr', '_echo'):
+                    # a callable object whose __call__ is a coroutine function
+                    class Obj:
+                        def __init__(self, co):
+                            self.co = co
+
+                        async def __call__(self, a='da', b='db'):
+                            return await self.co(a=a, b=b)
+                    co = Obj(co)
+                disp.add(co, name=name)
+            elif name in ('terr', 'boom'):
+                # a plain function served by a synchronous dispatcher through functools.partial / a callable object
+                class SObj:
+                    def __init__(self, f):
+                        self.f = f
+
+                    def __call__(self, a='da', b='db'):
+                        return self.f(a=a, b=b)
+                disp.add(SObj(f), name=name)
             else:
                 disp.add(f, name=name)
+        # both decorated methods have been served once before the observed call (whatever the library keeps per method is warm)
+        for name in ('deca', 'decb'):
+            text = '{"jsonrpc":"2.0","method":"%s","params":["warm"],"id":0}' % name
+            if is_async:
+                loop = VLoop()
+                try:
+                    loop.run(disp.dispatch(text))
+                finally:
+                    loop.close()
+            else:
+                disp.dispatch(text)
+        del self.log[:]
 
 
 def direct(served, method, args, kwargs):
@@ -444,19 +514,43 @@ def run_batch(case, rec):
                 w, wl = direct(served, m, a, kw)
                 wants.append((w, wl))
             client = build_system(pair, served, case['idgen'], case['strict'])
+            Rnd.drawn = []
+            holder = {}
+            retry = None
             try:
-                out = drive(pair[0], lambda: drive_batch(pair[0], client, notation, elems))
+                def first():
+                    holder['t'] = batch_thunk(client, notation, elems)
+                    return holder['t']()
+                out = drive(pair[0], first)
+                got = classify(out)
+                if notation == 'getitem' and got[:2] == ('raised', 'IdentityError') and not client.sent and 't' in holder:
+                    # the refused item access is repeated on the SAME wrapper: new ids are drawn for all calls
+                    n0 = len(Rnd.drawn)
+                    retry = (classify(drive(pair[0], holder['t'])), list(Rnd.drawn[n0:]), len(client.sent))
             finally:
                 Rnd.env = None
-            return served, client, wants, classify(out)
-        for choices, (served, client, wants, got) in explore_choices(once, max_exec=5000):
+            return served, client, wants, (got, retry)
+        for choices, (served, client, wants, (got, retry)) in explore_choices(once, max_exec=5000):
             rec.transitions += 1
             c = dict(case, notation=notation, choices=list(choices))
             ncalls = sum(1 for e in elems if e[3])
-            if got[0] == 'raised' and got[1] == 'IdentityError' and not client.sent:
+            if got[0] == 'raised' and got[1] == 'IdentityError' and (not client.sent or retry):
                 # collision of generated ids detected while the batch was being built: allowed for random generators
                 if case['idgen'] in ('randint12', 'random1ab'):
                     rec.outcomes['id collision refused at build time'] += 1
+                    if retry is not None:
+                        got2, ids2, nsent = retry
+                        if len(ids2) == ncalls and len(set(ids2)) == len(ids2):
+                            rec.outcomes['refused item access repeated with distinct ids'] += 1
+                            call_wants = [w for (w, _), e in zip(wants, elems) if e[3]]
+                            if got2[:2] == ('raised', 'IdentityError') and nsent == 0:
+                                rec.violation('C07:batch:a refused batch[...] leaves ids behind in the wrapper (the repeated access with distinct ids is refused)', c,
+                                              expected='sent', observed=dict(first=got, second=got2, ids=ids2))
+                            elif nsent != 1:
+                                rec.violation('C07:batch:%d documents on the wire for a repeated batch[...]' % nsent, c, expected=1, observed=got2)
+                            elif all(w[0] == 'ok' for w in call_wants) and not (got2[0] == 'ok' and isinstance(got2[1], tuple) and typed_eq(list(got2[1]), [w[1] for w in call_wants])):
+                                rec.violation('C07:batch:results of a repeated batch[...] differ from the direct calls', c,
+                                              expected=[w[1] for w in call_wants], observed=got2)
                     continue
                 rec.violation('C07:batch:IdentityError while building a batch with a non-colliding generator', c, expected='sent', observed=got)
                 continue
@@ -508,7 +602,7 @@ def gen_cases(ctx):
     for pair in pairs:
         for idgen in IDGENS:
             for strict in (True, False):
-                for method in ('echo', 'terr', 'ferr', 'herr', 'uerr', 'lerr', 'boom', '_echo', '__x'):
+                for method in ('echo', 'terr', 'ferr', 'herr', 'uerr', 'lerr', 'boom', '_echo', '__x', 'deca', 'decb'):
                     for shape in ARGSHAPES:
                         for vi in (range(len(VALS)) if shape != 'none' else [0]):
                             if idgen not in ('sequential', 'sequential0', 'randint12') and vi > 1:
